@@ -804,6 +804,32 @@ def corpus_ref_defaults(R, r):
         R.fail("C09:copy-raises:" + type(ex).__name__, f"reference fields with declared defaults: {type(ex).__name__}: {str(ex)[:160]}", ctx)
 
 
+def corpus_ref_convertible(R, r):
+    """an object of the holder's buffer that is NOT of the reference's member type (a statically shaped array given to a reference
+    to a dynamically shaped one) cannot be aliased: the reference must denote an object of the member type holding that value"""
+    xo = common.import_xobjects()
+    ctx = {"component": "heap", "corpus": "ref-bound-to-convertible-object"}
+    try:
+        uid = next(_rd_uid)
+        A3, AD = xo.Float64[3], xo.Float64[:]
+        Hc = type(f"RCH{uid}", (xo.Struct,), {"a": xo.Ref[AD], "k": xo.Int64})
+        buf = xo.ContextCpu().new_buffer(r.choice([256, 2048]))
+        src = A3([1.0, 2.0, 3.0], _buffer=buf)
+        h = Hc(k=1, _buffer=buf)
+        h.a = src
+        got = h.a
+        if type(got).__name__ != AD.__name__ or [float(x) for x in got.to_nparray()] != [1.0, 2.0, 3.0]:
+            R.fail("C08:bound-value-wrong", f"Ref[Float64[:]] bound to a Float64[3] of the same buffer reads {type(got).__name__} {list(got.to_nparray())[:6]}, expected the value [1, 2, 3] as a Float64[:]", ctx)
+        if int(got._offset) == int(src._offset):
+            R.fail("C08:aliased-wrong-type", "a reference to Float64[:] denotes the memory of a Float64[3] object (no header there)", ctx)
+        src[0] = 9.0
+        if float(h.a[0]) != 1.0:
+            R.fail("C08:copy-not-independent", "the referent created for an object of another type changed with the original", ctx)
+        R.tags["corpus.ref-convertible"] += 1
+    except Exception as ex:
+        R.fail("C08:bind-raises:" + type(ex).__name__, f"binding a Float64[3] to Ref[Float64[:]]: {str(ex)[:160]}", ctx)
+
+
 def run_all(tier, seed, n=None):
     r = random.Random(seed * 999331 + 29)
     R = L.Run()
@@ -812,6 +838,7 @@ def run_all(tier, seed, n=None):
     corpus_cases(R, r)
     corpus_ref_struct(R, r)
     corpus_ref_defaults(R, r)
+    corpus_ref_convertible(R, r)
     for _ in range(n):
         run_case(R, r)
     cases, cur = [], []
